@@ -407,6 +407,15 @@ func makePool(t *core.Tape, n int, rich bool) []poolItem {
 				shape += "+thread"
 			}
 		}
+		// a conversation linked both ways in memory: the note holds its replies, a reply points back at
+		// the note (a cycle of pointers, as an application that has dereferenced a thread holds it)
+		if rich && t.Bool(1, 20) {
+			if ob, ok := it.(*ap.Object); ok && ob.Replies == nil {
+				reply := &ap.Object{ID: ap.IRI(fmt.Sprintf("https://example.com/thread/%d/reply", i)), Type: ap.NoteType, InReplyTo: ob}
+				ob.Replies = &ap.Collection{ID: ap.IRI(fmt.Sprintf("https://example.com/thread/%d/replies", i)), Type: ap.CollectionType, Items: ap.ItemCollection{reply}, TotalItems: 1}
+				shape += "+cycle"
+			}
+		}
 		// ids that are not URLs: urn:, did:, acct:, tag:, mailto: name things in the fediverse too. They
 		// have no host and no path for an IRI comparison to look at – only their text – and two of
 		// them are still two identities
@@ -556,6 +565,22 @@ func run(c *core.Ctx) {
 			m.add(pool[i].id)
 		}
 	}
+	thousand := false
+	if big && t.Bool(1, 6) {
+		// a busy inbox: 1030..2100 earlier members (plain ids) before the pool's items
+		nf := []int{1030, 1537, 2100}[t.Draw(3)]
+		filler := make([]ap.Item, 0, nf+len(initial))
+		ids := make([]string, 0, nf+len(initial))
+		for i := 0; i < nf; i++ {
+			id := fmt.Sprintf("https://inbox.example/activities/%d", i)
+			filler = append(filler, ap.IRI(id))
+			ids = append(ids, id)
+		}
+		initial = append(filler, initial...)
+		m.ids = append(ids, m.ids...)
+		c.Probe("thousand_member_run")
+		thousand = true
+	}
 	spare := 0
 	if t.Bool(1, 2) {
 		spare = 1 + t.Draw(3)
@@ -601,6 +626,9 @@ func run(c *core.Ctx) {
 	}
 	if big {
 		maxOps = 150
+	}
+	if thousand {
+		maxOps = 20
 	}
 	nOps := 1 + t.Draw(maxOps)
 	changes := 0
